@@ -1,0 +1,10 @@
+//go:build verif
+
+// Contracts for package arraictx, read by /verif/engine (govc). Comments only.
+package arraictx
+
+// Builds the evaluation context (file systems, root cache, build info). Assumed (not verified) to
+// write no memory that existed before the call; used by the server engine's set-up code (C17).
+//@ func InitRunCtx(ctx)
+//@   trusted
+//@   assigns fresh-only
